@@ -293,6 +293,28 @@ def lcg_cases(quick):
                          "cell": "{}{} {}->{} {}".format(o1, o2, n1, n2,
                                                         copies),
                          "order": order, "lines": lines, "post": post}
+                  if post is None:
+                    # the judged edge removed again (by instance)
+                    yield {"family": rt, "version": "gfa1", "vlevel": vlevel,
+                           "cell": "{}{} {}->{} {}".format(o1, o2, n1, n2,
+                                                          copies),
+                           "order": order, "lines": lines,
+                           "post": ["rm-line", es[-1]]}
+                    if rt == "L" and copies in ("one*", "one"):
+                      # a path over the link arriving before it / after it
+                      f = es[0].split("\t")
+                      pl = T(["P", "q", f[1] + f[2] + "," + f[3] + f[4],
+                              f[5]])
+                      for pos in ("before", "after"):
+                        l2 = [x for x in lines if x != es[0]]
+                        l2 = l2 + ([pl, es[0]] if pos == "before"
+                                   else [es[0], pl])
+                        yield {"family": rt, "version": "gfa1",
+                               "vlevel": vlevel,
+                               "cell": "{}{} {}->{} {}".format(
+                                   o1, o2, n1, n2, copies),
+                               "order": order + "+path-" + pos,
+                               "lines": l2, "post": None}
   # gaps (GFA2)
   REF_G = ["refused", T(["G", "*", "a+", "u-", "1", "*"])]
   REF_E = ["refused", T(["E", "*", "a-", "u+", "0", "1", "0", "1", "*"])]
@@ -400,6 +422,17 @@ def execute(case):
     elif post[0] == "in-out":
       g.add_line(post[1])
       g.rm(post[2])
+    elif post[0] == "rm-line":
+      # the judged edge itself, removed by instance (named or not)
+      tgt = [l for l in g.lines if str(l) == post[1]]
+      if tgt:
+        g.rm(tgt[0])
+        lines = [l for l in lines if l != post[1]] + \
+            [l for l in lines if l == post[1]][1:]
+    elif post[0] == "path-over":
+      # a path over the judged link arrives before the link does: placeholder
+      # link, replaced later (GFA1)
+      pass
     else:
       g.rm(post[1])
       lines = R.doc_remove(lines, post[1])
@@ -446,6 +479,9 @@ def standalone(case, field):
                "print(type(e).__name__)".format(post[1]))
     elif post[0] == "in-out":
       s.append("g.add_line({!r}); g.rm({!r})".format(post[1], post[2]))
+    elif post[0] == "rm-line":
+      s.append("g.rm([l for l in g.lines if str(l) == {!r}][0])".format(
+          post[1]))
     else:
       s.append("g.rm({!r})".format(post[1]))
   s.append("for s in g.segments:")
